@@ -136,13 +136,19 @@ impl Drop for SubSocket {
 
 impl SubSocket {
     pub async fn subscribe(&mut self, subscription: &str) -> ZmqResult<()> {
-        self.backend.subs.lock().insert(subscription.to_string());
+        // The set is idempotent, so only a change of the set may go on the
+        // wire: publishers count every SUBSCRIBE they receive.
+        if !self.backend.subs.lock().insert(subscription.to_string()) {
+            return Ok(());
+        }
         self.process_subs(subscription, SubBackendMsgType::SUBSCRIBE)
             .await
     }
 
     pub async fn unsubscribe(&mut self, subscription: &str) -> ZmqResult<()> {
-        self.backend.subs.lock().remove(subscription);
+        if !self.backend.subs.lock().remove(subscription) {
+            return Ok(());
+        }
         self.process_subs(subscription, SubBackendMsgType::UNSUBSCRIBE)
             .await
     }
